@@ -215,7 +215,7 @@ func c32Gen(rt *rapid.T, era Era) (*Case, bool) {
 	o := genOpts{MaxCerts: 1, FewAssets: true, NoProps: true}
 	o.BeforeCoins = func(rt *rapid.T, c *Case) {
 		tx, p := c.Tx, &c.P
-		p.MaxColl = uint(rapid.IntRange(1, 4).Draw(rt, "maxColl"))
+		p.MaxColl = uint(rapid.IntRange(0, 4).Draw(rt, "maxColl"))
 		switch rapid.IntRange(0, 5).Draw(rt, "nCollClass") {
 		case 0:
 			nColl = 0
@@ -226,11 +226,19 @@ func c32Gen(rt *rapid.T, era Era) (*Case, bool) {
 		case 3:
 			nColl = int(p.MaxColl) + rapid.IntRange(1, 3).Draw(rt, "nCollOver")
 		default:
-			nColl = rapid.IntRange(1, int(p.MaxColl)).Draw(rt, "nColl")
+			nColl = rapid.IntRange(1, max(1, int(p.MaxColl))).Draw(rt, "nColl")
 		}
 		for i := 0; i < nColl; i++ {
 			tx.Coll = append(tx.Coll, In{TxID: hash256([]byte("c32/coll")), Ix: uint32(i),
 				Key: payKeys[rapid.IntRange(0, 3).Draw(rt, "collKey")]})
+		}
+		if nColl > 1 && rapid.IntRange(0, 2).Draw(rt, "collUnsorted") == 0 {
+			// collateral (and inputs) encoded in non-canonical order: an in-place
+			// re-ordering by a rule would be observable
+			tx.KeepOrder = true
+			for i, j := 0, len(tx.Coll)-1; i < j; i, j = i+1, j-1 {
+				tx.Coll[i], tx.Coll[j] = tx.Coll[j], tx.Coll[i]
+			}
 		}
 		if !noRedeemers {
 			lang := 1
@@ -274,7 +282,7 @@ func c32Gen(rt *rapid.T, era Era) (*Case, bool) {
 	case 1:
 		p.CollPct = 100
 	case 2:
-		p.CollPct = uint(rapid.IntRange(0, 2).Draw(rt, "pctTiny"))
+		p.CollPct = []uint{0, 1, 2, 65535}[rapid.IntRange(0, 3).Draw(rt, "pctTiny")]
 	case 3:
 		p.CollPct = uint(rapid.IntRange(101, 199).Draw(rt, "pctOdd"))
 	default:
@@ -424,12 +432,15 @@ func TestC32(t *testing.T) {
 // c32Scenarios: hand-built phase-2-invalid transactions (fee 300001, one input
 // of 100 ada, one output) with collateral exactly at the interesting points.
 func c32Scenarios(era Era) []*Case {
+	fee := uint64(300_001)
 	mk := func(pct, max uint, coll []uint64, ret uint64, tokens bool) *Case {
 		p := defaultParams(era)
 		p.CollPct, p.MaxColl = pct, max
-		tx := &TxSpec{Era: era, Net: 0, Fee: 300_001}
-		tx.Ins = []In{{TxID: hash256([]byte("c32/in")), Ix: 0, Key: 0, V: Val{Coin: 100_000_000}}}
-		tx.Outs = []Out{{Addr: payAddr(0, 1), V: Val{Coin: 100_000_000 - tx.Fee}}}
+		tx := &TxSpec{Era: era, Net: 0, Fee: fee}
+		// the fee is paid by an input of exactly that size next to a 100-ada input
+		tx.Ins = []In{{TxID: hash256([]byte("c32/in")), Ix: 0, Key: 0, V: Val{Coin: 100_000_000}},
+			{TxID: hash256([]byte("c32/in")), Ix: 1, Key: 0, V: Val{Coin: fee}}}
+		tx.Outs = []Out{{Addr: payAddr(0, 1), V: Val{Coin: 100_000_000}}}
 		lang := 1
 		if era >= Conway {
 			lang = 3
@@ -461,7 +472,64 @@ func c32Scenarios(era Era) []*Case {
 		mk(150, 2, []uint64{200_000, 200_000, 200_000}, 0, false), // 3 inputs, maximum 2
 		mk(150, 3, []uint64{5_000_000}, 0, true),                  // tokens, nothing returned
 	}
+	// collateral percentage 0 / 100 / 65535 and maximum 0 / 1 / n / n+1
+	out = append(out,
+		mk(0, 3, []uint64{0}, 0, false), mk(0, 3, []uint64{1}, 0, false),
+		mk(100, 3, []uint64{300_000}, 0, false), mk(100, 3, []uint64{300_001}, 0, false),
+		mk(65535, 3, []uint64{196_605_655}, 0, false), mk(65535, 3, []uint64{196_605_656}, 0, false), // 300001*65535 = 19660565535
+		mk(150, 0, nil, 0, false), mk(150, 0, []uint64{450_002}, 0, false),
+		mk(150, 1, []uint64{450_002}, 0, false), mk(150, 1, []uint64{250_000, 200_002}, 0, false),
+		mk(150, 4, []uint64{100_000, 100_000, 100_000, 150_002}, 0, false),
+		mk(150, 4, []uint64{100_000, 100_000, 100_000, 100_000, 50_002}, 0, false),
+	)
+	// fees (and therefore required collateral) at the integer-width boundaries:
+	// balance one below / exactly at ceil(fee*pct/100), split over two inputs
+	// when it does not fit into one
+	maxU := ^uint64(0)
+	for _, f := range []uint64{1<<32 - 1, 1 << 32, 1<<32 + 1, 1<<53 - 1, 1 << 53, 1<<53 + 1, 1<<63 - 1, 1 << 63, 1<<63 + 1, maxU} {
+		for _, pct := range []uint{100, 150, 65535} {
+			need := new(big.Int).Mul(new(big.Int).SetUint64(f), new(big.Int).SetUint64(uint64(pct)))
+			ceil := new(big.Int).Add(need, big.NewInt(99))
+			ceil.Div(ceil, big.NewInt(100))
+			for _, d := range []int64{-1, 0} {
+				bal := new(big.Int).Add(ceil, big.NewInt(d))
+				var coll []uint64
+				for bal.Sign() > 0 && len(coll) < 3 {
+					part := new(big.Int).Set(bal)
+					if !part.IsUint64() {
+						part.SetUint64(maxU)
+					}
+					coll = append(coll, part.Uint64())
+					bal.Sub(bal, part)
+				}
+				if bal.Sign() > 0 {
+					continue // does not fit into three inputs
+				}
+				fee = f
+				out = append(out, mk(pct, 3, coll, 0, false))
+				fee = 300_001
+			}
+		}
+	}
+	// collateral amounts at the boundaries with an ordinary fee (amply sufficient)
+	for _, a := range []uint64{1<<32 - 1, 1<<32 + 1, 1<<53 - 1, 1<<53 + 1, 1<<63 - 1, 1<<63 + 1, maxU} {
+		out = append(out, mk(150, 3, []uint64{a}, 0, false))
+	}
 	if era >= Babbage {
+		// two asset names under one policy, split across two collateral inputs
+		multi := func(ret []AQ) *Case {
+			c := mk(150, 3, []uint64{3_000_000, 3_000_000}, 2_000_000, false)
+			c.Tx.Coll[0].V.Assets = []AQ{{c32Tokens[0], big.NewInt(5)}}
+			c.Tx.Coll[1].V.Assets = []AQ{{c32Tokens[1], big.NewInt(7)}}
+			c.Tx.CollRet.V.Assets = ret
+			return c
+		}
+		out = append(out,
+			multi([]AQ{{c32Tokens[0], big.NewInt(5)}, {c32Tokens[1], big.NewInt(7)}}), // all returned
+			multi([]AQ{{c32Tokens[0], big.NewInt(5)}}),                                // second name missing
+			multi([]AQ{{c32Tokens[1], big.NewInt(7)}}),                                // first name missing
+			multi([]AQ{{c32Tokens[0], big.NewInt(5)}, {c32Tokens[1], big.NewInt(6)}}), // second name short by one
+		)
 		out = append(out,
 			mk(150, 3, []uint64{5_000_000}, 4_900_000, false), // inputs ample, balance 100000 < 450002
 			mk(150, 3, []uint64{5_000_000}, 4_549_998, false), // balance exactly 450002
@@ -495,6 +563,33 @@ func c32Evaluate(rec *evi.Recorder, c *Case, invalid bool, report func(key, what
 	pp := c.P.forEra(era)
 	rules := c32Rules(era)
 	sample := c32Sample(c, v, raw, invalid)
+	// purity: every call twice with the same verdict; transaction, parameters
+	// and ledger state unchanged afterwards; verdicts independent of history
+	pur := newPurity(rec, "C32", era.String(), dtx, report)
+	pur.watchParams(pp)
+	pur.watchState(st)
+	defer pur.done()
+	runAll := func(t ledger.Transaction, ls common.LedgerState, q common.ProtocolParameters) []error {
+		out := []error{rules.noColl(t, c.Slot, ls, q), rules.insufficient(t, c.Slot, ls, q), rules.nonAda(t, c.Slot, ls, q), nil,
+			common.VerifyTransaction(t, c.Slot, ls, q, rulesFor(era))}
+		if rules.tooMany != nil {
+			out[3] = rules.tooMany(t, c.Slot, ls, q)
+		}
+		return out
+	}
+	ruleNames := []string{"NoCollateralInputs", "InsufficientCollateral", "CollateralContainsNonAda", "TooManyCollateralInputs", "VerifyTransaction"}
+	{
+		first := runAll(dtx, st, pp)
+		other := c32HistoryTx(era)
+		usedOther := runAll(other, st, pp)
+		again := runAll(dtx, st, pp)
+		st2, _ := c.state()
+		freshOther := runAll(other, st2, c.P.forEra(era))
+		for i, n := range ruleNames {
+			pur.history(n+" on this transaction after another one was validated", first[i], again[i])
+			pur.history(n+" on the other transaction", freshOther[i], usedOther[i])
+		}
+	}
 
 	// distribution
 	rec.Class(fmt.Sprintf("%s:redeemers=%v", era, v.HasRedeemers))
@@ -530,14 +625,14 @@ func c32Evaluate(rec *evi.Recorder, c *Case, invalid bool, report func(key, what
 
 	// ---- single rules -----------------------------------------------------
 	if v.HasRedeemers {
-		e := rules.noColl(dtx, c.Slot, st, pp)
+		e := pur.twice("NoCollateralInputs", func() error { return rules.noColl(dtx, c.Slot, st, pp) })
 		rec.Eval()
 		if e == nil && !v.HasColl {
 			fail(fmt.Sprintf("C32:%s:rule:no-collateral-inputs-accepted", era),
 				fmt.Sprintf("%s.UtxoValidateNoCollateralInputs accepts a transaction with redeemers and no collateral input", era))
 		}
 		if v.NColl > 0 {
-			e = rules.insufficient(dtx, c.Slot, st, pp)
+			e = pur.twice("InsufficientCollateral", func() error { return rules.insufficient(dtx, c.Slot, st, pp) })
 			rec.Eval()
 			rec.Class(fmt.Sprintf("rule_insufficient:lib_accepts=%v:ref=%v", e == nil, v.Sufficient))
 			if e == nil && !v.Sufficient {
@@ -546,7 +641,7 @@ func c32Evaluate(rec *evi.Recorder, c *Case, invalid bool, report func(key, what
 					fmt.Sprintf("%s.UtxoValidateInsufficientCollateral accepts: collateral inputs %s - return %s = balance %s, balance*100 = %s < fee*pct = %d*%d = %s (%s)",
 						era, v.SumIn, v.Ret, v.Bal, new(big.Int).Mul(v.Bal, big.NewInt(100)), tx.Fee, c.P.CollPct, v.Need, cause))
 			}
-			e = rules.nonAda(dtx, c.Slot, st, pp)
+			e = pur.twice("CollateralContainsNonAda", func() error { return rules.nonAda(dtx, c.Slot, st, pp) })
 			rec.Eval()
 			rec.Class(fmt.Sprintf("rule_nonada:lib_accepts=%v:%s", e == nil, v.NonAdaNote))
 			if e == nil && !v.AdaOnly && v.NonAdaJudged {
@@ -555,7 +650,7 @@ func c32Evaluate(rec *evi.Recorder, c *Case, invalid bool, report func(key, what
 			}
 		}
 		if rules.tooMany != nil {
-			e = rules.tooMany(dtx, c.Slot, st, pp)
+			e = pur.twice("TooManyCollateralInputs", func() error { return rules.tooMany(dtx, c.Slot, st, pp) })
 			rec.Eval()
 			if e == nil && !v.CountOK {
 				fail(fmt.Sprintf("C32:%s:rule:too-many-collateral-inputs-accepted", era),
@@ -565,7 +660,7 @@ func c32Evaluate(rec *evi.Recorder, c *Case, invalid bool, report func(key, what
 	}
 
 	// ---- full rule list ---------------------------------------------------
-	full := common.VerifyTransaction(dtx, c.Slot, st, pp, rulesFor(era))
+	full := pur.twice("VerifyTransaction", func() error { return common.VerifyTransaction(dtx, c.Slot, st, pp, rulesFor(era)) })
 	rec.Eval()
 	if full != nil {
 		rec.Class(fmt.Sprintf("%s:full_rejects:ref_ok=%v", era, refOK))
@@ -597,6 +692,29 @@ func c32Evaluate(rec *evi.Recorder, c *Case, invalid bool, report func(key, what
 			fmt.Sprintf("VerifyTransaction(%s rules) accepts: collateral inputs %s - return %s = balance %s; balance*100 = %s < fee*pct = %d*%d = %s (%s)",
 				era, v.SumIn, v.Ret, v.Bal, new(big.Int).Mul(v.Bal, big.NewInt(100)), tx.Fee, c.P.CollPct, v.Need, cause))
 	}
+}
+
+var c32HistCache = map[Era]ledger.Transaction{}
+
+// c32HistoryTx is a fixed other transaction of the era (scenario "two collateral
+// inputs, sufficient"; its UTxO entries are in nobody else's state).
+func c32HistoryTx(era Era) ledger.Transaction {
+	if t, ok := c32HistCache[era]; ok {
+		return t
+	}
+	c := c32Scenarios(era)[3]
+	for i := range c.Tx.Ins {
+		c.Tx.Ins[i].TxID = hash256([]byte("c32/history/in"))
+	}
+	for i := range c.Tx.Coll {
+		c.Tx.Coll[i].TxID = hash256([]byte("c32/history/coll"))
+	}
+	dtx, _, err := c33Decode(c.Tx, true)
+	if err != nil {
+		panic(err)
+	}
+	c32HistCache[era] = dtx
+	return dtx
 }
 
 func cmpInt(a, b int) int {
